@@ -50,4 +50,94 @@ theorem handler_error_sticky (c : Conn) (id : Nat) (he : c.r.readErr = some (.ha
   obtain ⟨c', h1, h2, _⟩ := ReaderRejects.nextReader_sticky c (.handler id) he hn
   exact ⟨c', h1, h2⟩
 
+/-! ### non-vacuity -/
+section NonVacuity
+set_option linter.defProp false
+open WS WS.HdrLogic WS.SrcLaw WS.ReaderRejects WS.Codec WS.ReaderDecodes
+
+/-- a client connection (default handlers, two keys in the key source) in the middle of a fragmented
+    message; pending: a ping "ping!" (split over buffer and transport), then a close frame
+    1001 "bye", then one stray byte -/
+def witPing : Conn :=
+  { w := { newW false 4096 false false with keys := [1, 2, 3, 4, 5, 6, 7, 8] },
+    r := { isServer := false, nego := false, final := false, length := 3, msgReader := some 0, nextId := 1,
+           hlog := [.pong [9]],
+           buf := { size := 4096, buf := [137, 5, 0x70, 0x69],
+                    t := { chunks := [[0x6e, 0x67, 0x21, 136, 5], [0x03, 0xE9, 0x62, 0x79, 0x65, 0xAA]] }, total := 15 } } }
+
+def witPing_wf : WF witPing.r.buf := ⟨by decide, by decide, by decide, (by intro e h; cases h)⟩
+
+/-- non-vacuity of `default_ping_pong`: all hypotheses hold for `witPing` -/
+example : ∃ c', advanceFrame witPing = (.ok 9, c') ∧ c'.r.hlog = [.pong [9]] ++ [.ping [0x70, 0x69, 0x6e, 0x67, 0x21]] ∧
+      c'.r.buf.pending = [136, 5, 0x03, 0xE9, 0x62, 0x79, 0x65, 0xAA] ∧
+      c'.w.wire = witPing.w.wire ++ controlFrame witPing.w.isServer 10 [0x70, 0x69, 0x6e, 0x67, 0x21] (ctlKey witPing.w).1 ∧
+      c'.r.readErr = none ∧ c'.r.final = witPing.r.final :=
+  default_ping_pong witPing ⟨rfl, rfl, witPing_wf, by decide⟩ ⟨rfl, rfl⟩ rfl rfl [0x70, 0x69, 0x6e, 0x67, 0x21]
+    [136, 5, 0x03, 0xE9, 0x62, 0x79, 0x65, 0xAA] (by decide) (by decide)
+
+/-- evaluated: the pong on the wire is masked with the first key and carries the ping's payload -/
+example : (advanceFrame witPing).2.w.wire = [0x8A, 0x85, 1, 2, 3, 4, 0x70 ^^^ 1, 0x69 ^^^ 2, 0x6e ^^^ 3, 0x67 ^^^ 4, 0x21 ^^^ 1] := by
+  decide
+
+/-- the connection after the ping was answered: the close frame 1001 "bye" is next -/
+def witClose : Conn := (advanceFrame witPing).2
+
+def witClose_atBoundary : AtBoundary witClose :=
+  ⟨by decide, by decide, ⟨by decide, by decide, by decide, by decide⟩, by decide⟩
+
+/-- non-vacuity of `default_close_echo`: all hypotheses hold for `witClose` (a state produced by the
+    model itself), code 1001, reason "bye" -/
+example : ∃ c', advanceFrame witClose = (.error (.close 1001 [0x62, 0x79, 0x65]), c') ∧
+      c'.r.hlog = witClose.r.hlog ++ [.close 1001 [0x62, 0x79, 0x65]] ∧
+      c'.w.wire = witClose.w.wire ++ controlFrame witClose.w.isServer 8 (closePayload 1001 []) (ctlKey witClose.w).1 ∧
+      c'.w.writeErr = some .closeSent :=
+  default_close_echo witClose witClose_atBoundary ⟨by decide, by decide⟩ (by decide) (by decide) 1001 [0x62, 0x79, 0x65] [0xAA]
+    (by decide) (by decide) (by decide) (by decide) (by decide)
+
+/-- a binary message 01 02 03 04 05 in three fragments with a ping and a pong in between, masked
+    (the reader is a server) -/
+def witMsg : List PFrame :=
+  [{ op := 2, fin := false, key := ⟨0x37, 0xfa, 0x21, 0x3d⟩, payload := [1, 2] },
+   { op := 9, fin := true, key := ⟨1, 2, 3, 4⟩, payload := [0x70] },
+   { op := 0, fin := false, key := ⟨0xa0, 0xb0, 0xc0, 0xd0⟩, payload := [3] },
+   { op := 10, fin := true, key := ⟨4, 3, 2, 1⟩, payload := [0x71, 0x72] },
+   { op := 0, fin := true, key := ⟨0xff, 0, 0xff, 0⟩, payload := [4, 5] }]
+
+def witMsg_shape : MsgShape 2 witMsg :=
+  MsgShape.frag _ _ rfl rfl (by decide)
+    (Tail.ctl _ _ ⟨Or.inl rfl, rfl, by decide⟩ (Tail.cont _ _ rfl rfl (by decide)
+      (Tail.ctl _ _ ⟨Or.inr rfl, rfl, by decide⟩ (Tail.last _ rfl rfl (by decide)))))
+
+/-- a server connection with recording ping / pong handlers, reader idle; the 38 wire bytes arrive in
+    chunks of 9, followed by EOF -/
+def witSrv : Conn :=
+  { w := newW true 4096 false false,
+    r := { isServer := true, nego := false, hPing := .record, hPong := .record,
+           buf := { size := 4096, buf := [],
+                    t := { chunks := [(encAll true witMsg).take 9, ((encAll true witMsg).drop 9).take 9,
+                                      ((encAll true witMsg).drop 18).take 9, (encAll true witMsg).drop 27] },
+                    total := 38 } } }
+
+def witSrv_idle : ReaderIdle witSrv :=
+  ⟨rfl, rfl, rfl, ⟨by decide, by decide, by decide, (by intro e h; cases h)⟩, by decide, by decide,
+    (by intro id h; cases h), (by intro id h; cases h)⟩
+
+/-- non-vacuity of `handlers_exactly_once`: reads of 1 byte -/
+example : ∃ c1 rid c2, nextReader witSrv = (.msg 2 rid false, c1) ∧ (readAll c1 rid 1).2 = c2 ∧
+      c2.r.hlog = witSrv.r.hlog ++ [.ping [0x70], .pong [0x71, 0x72]] :=
+  handlers_exactly_once witSrv witSrv_idle 2 (Or.inr rfl) witMsg witMsg_shape [] (by decide) (Or.inl rfl)
+    (by decide) (by decide) 1 (by decide)
+
+/-- a client connection whose application ping handler returned error 42 on the previous call -/
+def witHandlerFailed : Conn :=
+  { w := { newW false 4096 false false with keys := [1, 2, 3, 4] },
+    r := { isServer := false, nego := false, hPing := .fail 42, readErr := some (.handler 42), errCount := 1,
+           hlog := [.ping [1, 2]], buf := { size := 4096, buf := [0x81, 0x01, 0x41], total := 7 } } }
+
+/-- non-vacuity of `handler_error_sticky` -/
+example : ∃ c', nextReader witHandlerFailed = (.err (.handler 42), c') ∧ c'.r.readErr = some (.handler 42) :=
+  handler_error_sticky witHandlerFailed 42 rfl (by decide)
+
+end NonVacuity
+
 end WS.Props.C08
